@@ -363,12 +363,19 @@ impl MarshalledMessageBody {
     }
 
     pub fn from_parts(
-        buf: Vec<u8>,
-        buf_offset: usize,
+        mut buf: Vec<u8>,
+        mut buf_offset: usize,
         raw_fds: Vec<crate::wire::UnixFd>,
         sig: String,
         byteorder: ByteOrder,
     ) -> Self {
+        // Values pushed later are padded relative to the start of `buf`, while the body is read relative to
+        // `buf_offset`. The two agree only if the body starts on an 8 byte boundary (it does in a received message).
+        // For any other offset drop the bytes in front of the body so that it starts at 0.
+        if buf_offset % 8 != 0 {
+            buf.drain(..buf_offset.min(buf.len()));
+            buf_offset = 0;
+        }
         let sig = SignatureBuffer::from_string(sig);
         Self {
             buf,
